@@ -63,7 +63,7 @@ var (
 
 // four-segment paths of the quick tier (the thorough tier enumerates all of them)
 var quickQuads = []string{
-	"uatom/channel-0/x/uatom", "uatom/channel-0/x/channel-1", "transfer/channel-0/transfer/channel-1", "transfer/channel-1/transfer/channel-0",
+	"uatom/channel-0/x/uatom", "uatom/channel-0/x/channel-1", "uatom/channel-0/channel-1/uatom", "channel-0/channel-1/channel-0/x", "transfer/channel-0/transfer/channel-1", "transfer/channel-1/transfer/channel-0",
 	"transfer/channel-0/uatom/x", "transfer/channel-1/uatom/channel-0", "x/channel-1/uatom/uatom", "uatom/x/channel-0/uatom",
 	"transfer/channel-0/transfer/uatom", "channel-0/channel-1/channel-0/channel-1", "uatom/uatom/uatom/channel-0", "transfer/transfer/channel-1/x",
 }
@@ -552,6 +552,26 @@ func shape(p string) string {
 	return strings.Join(segs, "/")
 }
 
+// signature abstracts a path to what the hop heuristics look at: which segments after the first are
+// identifier-like (i: a channel or client identifier) and which are not (w); the first segment is only
+// ever read as a port name (*).
+func signature(p string) string {
+	segs := strings.Split(p, "/")
+	for i, s := range segs {
+		switch {
+		case i == 0:
+			segs[i] = "*"
+		case channeltypes.IsValidChannelID(s) || clienttypes.IsValidClientID(s):
+			segs[i] = "i"
+		case s == "":
+			segs[i] = "_"
+		default:
+			segs[i] = "w"
+		}
+	}
+	return strings.Join(segs, "/")
+}
+
 func coinClass(d string) string {
 	if strings.HasPrefix(d, "ibc/") {
 		return "voucher"
@@ -613,8 +633,8 @@ func (wd *world) report(c *core.C, k *kase, v verdict, st *stats) bool {
 			proto = "v2"
 		}
 		// the key names the kind of disagreement (direction, protocol, what ICS-20 did with which class of
-		// coin, what class of limit was charged instead); the path shapes exhibiting it are in the coverage
-		key := fmt.Sprintf("%s/%s/%s/moved=%s/charged=%s", k.Dir, proto, k.ICS20.Kind, coinClass(k.ICS20.Denom), chargedClass(k))
+		// coin, what class of limit was charged instead) and the path's signature; finer shapes are in the coverage
+		key := fmt.Sprintf("%s/%s/%s/moved=%s/charged=%s/path~%s", k.Dir, proto, k.ICS20.Kind, coinClass(k.ICS20.Denom), chargedClass(k), signature(k.Path))
 		c.Hist("disagreements", name+":"+k.ICS20.Kind+":"+shape(k.Path))
 		c.Hist("disagreement_keys", key)
 		c.Violation(key, fmt.Sprintf("world %s, %s over %s (peer %s), packet denomination %q: %s", wd.name, k.Route, k.Chan, k.Peer, k.Path, v.bad), k)
@@ -726,6 +746,23 @@ func (wd *world) runRoute(c *core.C, rt route, fam []string, st *stats) bool {
 
 func run(c *core.C) {
 	fam := family(c)
+	var rk kase
+	if c.Replay != "" {
+		if err := c.LoadReplay(&rk); err != nil {
+			c.Broken("replay: %v", err)
+			return
+		}
+		// re-run the recorded path (for a voucher send: the path whose receive minted the voucher) and its suffixes
+		path := rk.Path
+		if rk.Dir == "send-voucher" {
+			path = strings.TrimPrefix(path, port+"/"+rk.From+"/")
+		}
+		segs := strings.Split(path, "/")
+		fam = nil
+		for i := len(segs) - 1; i >= 0; i-- {
+			fam = append(fam, strings.Join(segs[i:], "/"))
+		}
+	}
 	coins := candidateCoins(fam)
 	wk := ksim.NewWorker(c.T, 2)
 	var worlds []*world
@@ -740,21 +777,11 @@ func run(c *core.C) {
 		worlds = append(worlds, wd)
 	}
 	if c.Replay != "" {
-		var k kase
-		if err := c.LoadReplay(&k); err != nil {
-			c.Broken("replay: %v", err)
-			return
-		}
 		st := &stats{exhaustive: true}
 		for _, wd := range worlds {
 			for _, rt := range wd.routes {
-				if wd.name == k.World && rt.Name == k.Route && (rt.A == k.Chan || rt.A == k.From) {
-					// re-run the whole (small) neighbourhood of the recorded path on that route
-					path := k.Path
-					if k.Dir == "send-voucher" {
-						path = strings.TrimPrefix(path, port+"/"+k.From+"/")
-					}
-					wd.runRoute(c, rt, []string{path}, st)
+				if wd.name == rk.World && rt.Name == rk.Route && (rt.A == rk.Chan || (rk.Dir == "send-voucher" && rt.A == rk.From)) {
+					wd.runRoute(c, rt, fam[len(fam)-1:], st)
 				}
 			}
 		}
